@@ -1,14 +1,218 @@
 /-
-  Driver.C11 — line protocol front end for property C11 (stub: not built yet).
+  Driver.C11 — line protocol for matrix resizing histories (history protocol P2).
+
+    @ new <R>x<C> via=from|flat|from_fn      matrix with the elements 1..R*C in row-major order
+    @ from <rows>                            Matrix::from(vec![vec![…], …]); rows `1,2;3,4`,
+                                             `-` an empty row, `none` no rows at all (may be jagged)
+    @ flat <R> <C> <values>                  Matrix::from_flat_row_major((R, C), values)
+    insert_row <row> <value>
+    insert_row_with <row> <values>
+    insert_column <column> <value>
+    insert_column_with <column> <values>
+    remove_row <row>
+    remove_column <column>
+    retain_mut rows=<slice> cols=<slice>     slice ::= all | none | single(i) | range(a,b) |
+    retain rows=<slice> cols=<slice>                   not(s) | and(s,t) | or(s,t)
+    transpose                                (allocating; the result replaces the matrix)
+    transpose_mut
+    set <row> <column> <value> via=set|get_reference_mut
+    map_mut <k>                              x ↦ x + k
+    map_mut_with_index <k>                   x at (i, j) ↦ x + k·(i+1) + j
+    try <op …>                               the operation on a clone; the matrix itself is kept
+
+  Answer: `<ok|panic> <R>x<C> <rows> rm=<row_major_iter> cm=<column_major_iter> ## len=<data.len()> kind=<panic kind>`
+  — outcome, size and elements of the matrix **as it is after the operation** (after a panic: the
+  matrix that survived).  The part before `##` is computed from the list-of-rows specification
+  (`EasyMl.Rows`), the code-shaped model (`EasyMl.Matrix.exec`) is run beside it and must agree
+  (theorems of Props/C11); the part after `##` is code-shaped detail of the model.
 -/
+import EasyMl.Model.MatrixResize
+import EasyMl.Spec.MatrixResize
 import Driver.Parse
 
 namespace Driver.C11
+open EasyMl Driver
 
-abbrev State := Unit
+structure St where
+  m : Matrix Nat
+  rs : Rows Nat
 
-def init : State := ()
+abbrev State := Option St
 
-def step (s : State) (_toks : List String) : State × String := (s, "unimplemented")
+def init : State := none
+
+/-! parsing -/
+
+/-- split at top-level commas (not inside parentheses) -/
+def splitTop (s : List Char) : List (List Char) :=
+  let rec go (cs : List Char) (depth : Nat) (cur : List Char) (acc : List (List Char)) :
+      List (List Char) :=
+    match cs with
+    | [] => (cur.reverse :: acc).reverse
+    | c :: rest =>
+      if c = '(' then go rest (depth + 1) (c :: cur) acc
+      else if c = ')' then go rest (depth - 1) (c :: cur) acc
+      else if c = ',' && depth = 0 then go rest depth [] (cur.reverse :: acc)
+      else go rest depth (c :: cur) acc
+  go s 0 [] []
+
+/-- `name(args)` → (name, args) ; `name` → (name, "") -/
+def splitCall (s : List Char) : List Char × List Char :=
+  let name := s.takeWhile (· ≠ '(')
+  let rest := s.drop (name.length + 1)
+  (name, rest.dropLast)
+
+partial def parseSlice (s : List Char) : Option Slice :=
+  let (name, args) := splitCall s
+  let nm := String.ofList name
+  let parts := if args.isEmpty then [] else splitTop args
+  match nm, parts with
+  | "all", [] => some .all
+  | "none", [] => some .none
+  | "single", [a] => (String.ofList a).toNat?.map .single
+  | "range", [a, b] =>
+    match (String.ofList a).toNat?, (String.ofList b).toNat? with
+    | some x, some y => some (.range x y)
+    | _, _ => none
+  | "not", [a] => (parseSlice a).map .not
+  | "and", [a, b] =>
+    match parseSlice a, parseSlice b with
+    | some x, some y => some (.and x y)
+    | _, _ => none
+  | "or", [a, b] =>
+    match parseSlice a, parseSlice b with
+    | some x, some y => some (.or x y)
+    | _, _ => none
+  | _, _ => none
+
+def parseRows (s : String) : Option (List (List Nat)) :=
+  if s = "none" then some [] else (s.splitOn ";").mapM parseNatList
+
+def parseSize (s : String) : Option (Nat × Nat) :=
+  match s.splitOn "x" with
+  | [a, b] =>
+    match a.toNat?, b.toNat? with
+    | some r, some c => some (r, c)
+    | _, _ => none
+  | _ => none
+
+def parseOp (toks : List String) : Option (Matrix.Op Nat) :=
+  match toks with
+  | "insert_row" :: p :: v :: _ =>
+    match p.toNat?, v.toNat? with
+    | some p, some v => some (.insertRow p v)
+    | _, _ => none
+  | "insert_row_with" :: p :: vs :: _ =>
+    match p.toNat?, parseNatList vs with
+    | some p, some vs => some (.insertRowWith p vs)
+    | _, _ => none
+  | "insert_column" :: p :: v :: _ =>
+    match p.toNat?, v.toNat? with
+    | some p, some v => some (.insertColumn p v)
+    | _, _ => none
+  | "insert_column_with" :: p :: vs :: _ =>
+    match p.toNat?, parseNatList vs with
+    | some p, some vs => some (.insertColumnWith p vs)
+    | _, _ => none
+  | "remove_row" :: p :: _ => p.toNat?.map .removeRow
+  | "remove_column" :: p :: _ => p.toNat?.map .removeColumn
+  | "retain_mut" :: rest =>
+    match (optArg "rows" rest).bind (parseSlice ·.toList), (optArg "cols" rest).bind (parseSlice ·.toList) with
+    | some r, some c => some (.retainMut r c)
+    | _, _ => none
+  | "retain" :: rest =>
+    match (optArg "rows" rest).bind (parseSlice ·.toList), (optArg "cols" rest).bind (parseSlice ·.toList) with
+    | some r, some c => some (.retain r c)
+    | _, _ => none
+  | "transpose" :: _ => some .transpose
+  | "transpose_mut" :: _ => some .transposeMut
+  | "set" :: r :: c :: v :: _ =>
+    match r.toNat?, c.toNat?, v.toNat? with
+    | some r, some c, some v => some (.set r c v)
+    | _, _, _ => none
+  | "map_mut" :: k :: _ => k.toNat?.map fun k => .mapMut (· + k)
+  | "map_mut_with_index" :: k :: _ =>
+    k.toNat?.map fun k => .mapMutWithIndex fun x i j => x + k * (i + 1) + j
+  | _ => none
+
+/-! printing -/
+
+def showRow (r : List Nat) : String := showNats r
+
+def showRowsList (rs : List (List Nat)) : String := ";".intercalate (rs.map showRow)
+
+/-- the specification-level observation of a list-of-rows state -/
+def showSpec (rs : Rows Nat) : String :=
+  s!"{Rows.nrows rs}x{Rows.ncols rs} {showRowsList rs} rm={showNats rs.flatten} cm={showNats (Rows.transpose rs).flatten}"
+
+/-- the same observation read off the model matrix: size fields, `toRows`, flat data walked
+    row-major and column-major -/
+def showModel (m : Matrix Nat) : String :=
+  let rs := m.toRows
+  s!"{m.rows}x{m.columns} {showRowsList rs} rm={showNats rs.flatten} cm={showNats (Rows.transpose rs).flatten}"
+
+def answer (panicked : Bool) (rs : Rows Nat) (res : Matrix.Res Nat) : String :=
+  let o := if panicked then "panic" else "ok"
+  let om := if res.panic.isSome then "panic" else "ok"
+  let spec := s!"{o} {showSpec rs}"
+  let model := s!"{om} {showModel res.state}"
+  let kind := match res.panic with
+    | some k => s!" kind={k}"
+    | none => ""
+  if spec = model then s!"{spec} ## len={res.state.data.length}{kind}"
+  else s!"{spec} ## MODEL-SPEC-DISAGREE {model}"
+
+def construct (m? : Option (Matrix Nat)) (specOk : Bool) (rs : Rows Nat) : State × String :=
+  match m? with
+  | some m =>
+    if specOk then (some ⟨m, rs⟩, answer false rs ⟨m, none⟩)
+    else (none, s!"panic ## MODEL-SPEC-DISAGREE ok {showModel m}")
+  | none =>
+    if specOk then (none, s!"ok {showSpec rs} ## MODEL-SPEC-DISAGREE panic")
+    else (none, "panic ## kind=explicit")
+
+/-- is this list of rows an acceptable constructor argument (non-empty, rectangular, no empty row) -/
+def rowsAcceptable (rs : List (List Nat)) : Bool :=
+  match rs with
+  | [] => false
+  | r :: _ => !r.isEmpty && rs.all (·.length == r.length)
+
+def step (s : State) (toks : List String) : State × String :=
+  match toks with
+  | "@" :: "new" :: sz :: _ =>
+    match parseSize sz with
+    | some (r, c) =>
+      -- the elements 1..r*c in row-major order; `from` receives them as rows
+      let rs : Rows Nat := (List.range r).map fun i => (List.range c).map fun j => i * c + j + 1
+      let via := (optArg "via" toks).getD "from"
+      let m? := if via = "from" then Matrix.fromRows rs
+                else Matrix.fromFlatRowMajor r c (List.range' 1 (r * c))
+      -- from_fn((r, c), …) ends in from_flat_row_major, same acceptance
+      construct m? (decide (1 ≤ r) && decide (1 ≤ c)) rs
+    | none => (s, "bad-op")
+  | ["@", "from", rowsS] =>
+    match parseRows rowsS with
+    | some rs => construct (Matrix.fromRows rs) (rowsAcceptable rs) rs
+    | none => (s, "bad-op")
+  | ["@", "flat", rS, cS, valsS] =>
+    match rS.toNat?, cS.toNat?, parseNatList valsS with
+    | some r, some c, some vals =>
+      let rs : Rows Nat := (List.range r).map fun i => (vals.drop (i * c)).take c
+      construct (Matrix.fromFlatRowMajor r c vals) (decide (r * c = vals.length) && !vals.isEmpty) rs
+    | _, _, _ => (s, "bad-op")
+  | "try" :: rest =>
+    match s, parseOp rest with
+    | none, some _ => (s, "no-matrix")
+    | some st, some op =>
+      (s, answer (!Rows.pre st.rs op) (Rows.next st.rs op) (Matrix.exec st.m op))
+    | _, none => (s, "bad-op")
+  | _ =>
+    match s, parseOp toks with
+    | none, some _ => (s, "no-matrix")
+    | some st, some op =>
+      let res := Matrix.exec st.m op
+      let rs' := Rows.next st.rs op
+      (some ⟨res.state, rs'⟩, answer (!Rows.pre st.rs op) rs' res)
+    | _, none => (s, "bad-op")
 
 end Driver.C11
